@@ -1,6 +1,6 @@
 \* intended, flatten copying the requested class (C05 fix): pointer semantics = value semantics, independence, parents closed; all histories <= 3 (quick tier) over <= 3 trees
 CONSTANTS DeepCopyRebindsParents = TRUE CopyHookBoundToCopy = TRUE FlattenCopiesTop = TRUE
-          Universe = "full" MaxTrees = 3 MaxOps = 3
+          Lib = "flat" Universe = "full" MaxTrees = 3 MaxOps = 3
 INIT Init
 NEXT Next
 VIEW ViewFull
